@@ -508,12 +508,13 @@ example :
 
 /-! ## GroupAverage with the concrete image action of C02
 
-`groupAverage_equivariant_concrete` (in `Lemmas/C10Concrete.lean`) discharges every hypothesis of
-`avg_equivariant_of_laws` with the action laws of the model `tge` of `times_group_element`
-(`actV_eq_tge`: on the box the action used there IS `tge`), for operators preserving the extents:
-all of `B_d` on square / cubic images, `C2^d` on any extents.  The general non-square case (extents
-permuted by the operators) is covered by the correspondence run, not by a theorem: a single
-additive group of images cannot hold images of different extents. -/
+`Lemmas/C10Concrete.lean` discharges every hypothesis of `avg_equivariant_of_laws` with the action
+laws of the model `tge` of `times_group_element` (`actV_eq_tge`, `actV_eq_tge'`: on the box the
+action used there IS `tge`).  `groupAverage_equivariant_images` is the instance for operators
+preserving the extents (all of `B_d` on square / cubic images, `C2^d` on any extents);
+`groupAverage_equivariant_any_extents` is the general case, in which the operators permute the
+extents (non-square images): the extents are threaded through the action, the inner model may look
+at them and is assumed to return images of the extents it was given. -/
 
 theorem groupAverage_equivariant_images {R : Type} [CommRing R] {d : Nat} {ι κ : Type}
     (N : Fin d → Nat) (parX : ι → Nat) (parY : κ → Nat) (ops : List (SP d))
@@ -523,6 +524,18 @@ theorem groupAverage_equivariant_images {R : Type} [CommRing R] {d : Nat} {ι κ
     (fun i y n => r * avgSum SP.inv (actMI N parX) (actMI N parY) ops f (actMI N parX h x) i y n)
       = actMI N parY h (fun i y n => r * avgSum SP.inv (actMI N parX) (actMI N parY) ops f x i y n) :=
   groupAverage_equivariant_concrete N parX parY ops hops h hh hclosed f r x
+
+/-- **general extents**: for every operator list closed under right multiplication by `h`, every
+model `f` (which may depend on the extents), every extents `N`:
+`avg(N ∘ σ_h, h·x) = h · avg(N, x)`; multiplying both sides by the code's `1/len(operators)` is
+`actV_smul`. -/
+theorem groupAverage_equivariant_any_extents {R : Type} [CommRing R] {d : Nat} {ι κ : Type}
+    (parX : ι → Nat) (parY : κ → Nat) (ops : List (SP d)) (h : SP d)
+    (hclosed : (ops.map (· * h)).Perm ops)
+    (f : (Fin d → Nat) → (ι → V R d) → (κ → V R d)) (N : Fin d → Nat) (x : ι → V R d) :
+    avgSumN parX parY ops f (fun i => N (h.σ i)) (actMI (fun i => N (h.σ i)) parX h x)
+      = actMI (fun i => N (h.σ i)) parY h (avgSumN parX parY ops f N x) :=
+  groupAverage_equivariant_nonsquare parX parY ops h hclosed f N x
 
 /-- square images: every signed permutation preserves the extents -/
 theorem preserves_of_square {d : Nat} (n : Nat) (g : SP d) : Preserves (fun _ => n) g := fun _ => rfl
